@@ -1,3 +1,5 @@
+import os
+
 from typing import Mapping, Optional, Sequence
 
 from ..interop.adapter import ExecutionDeliveredNoResults
@@ -94,7 +96,12 @@ class PerfProfiler(Profiler):
 
     def process_profile(self, run_id, executor):
         cmdline = self._construct_report_cmdline(executor)
-        (return_code, output, _) = run(cmdline, run_id.env, cwd=run_id.location, shell=True,
+
+        # the profile was recorded in the run's working directory, with ~ expanded
+        location = run_id.location
+        if location:
+            location = os.path.expanduser(location)
+        (return_code, output, _) = run(cmdline, run_id.env, cwd=location, shell=True,
                                        verbose=executor.debug)
 
         if return_code != 0:
